@@ -761,9 +761,9 @@ func runC09(c *Ctx) {
 	r.Rule("pool-type", "the type returned by a pool's New, the static type of every Put argument and the asserted type of every Get agree")
 	r.Rule("use-after-release", "after a non-deferred release (Pool.Put or a function that puts its argument) the released value is not used on any path; the argument of a deferred release is not part of the function's result")
 	nputs, _ := putResetRule(c, p, func(s poolSite) bool { return !isStatefulPool(s) }, "put-reset", false)
-	r.Floor("put-reset", nputs, 35, "Put sites of struct pointers")
+	r.Floor("put-reset", nputs, 25, "Put sites of struct pointers")
 	np, _ := poolTypeRule(c, p, "pool-type", false)
-	r.Floor("pool-type", np, 30, "sync.Pool instances")
+	r.Floor("pool-type", np, 20, "sync.Pool instances")
 	nrel, _ := useAfterReleaseRule(c, p, p.ModuleFuncs(), "use-after-release", false)
 	r.Floor("use-after-release", nrel, 50, "release sites")
 	c09ResultOwned(c, p)
